@@ -115,6 +115,8 @@ type Conn struct {
 	reads    int      // number of Read calls begun
 	out      []Write
 	werr     error // fail writes with this error
+	hasWDL   bool  // a non-zero write deadline is armed (SetDeadline or SetWriteDeadline)
+	lateW    bool  // the harness' clock says: by the time of the next Write any armed write deadline has passed
 	deadline time.Time
 	hasDL    bool // a non-zero read deadline is armed
 	dlCalls  int
@@ -337,6 +339,11 @@ func (c *Conn) Write(p []byte) (int, error) {
 		c.log.Add(EvWrite, c.ID, 0, err, "")
 		return 0, err
 	}
+	if c.lateW && c.hasWDL {
+		c.mu.Unlock()
+		c.log.Add(EvWrite, c.ID, 0, ErrTimeout, "write deadline passed")
+		return 0, ErrTimeout
+	}
 	c.mu.Unlock()
 	st := c.log.Add(EvWrite, c.ID, len(p), nil, "")
 	c.mu.Lock()
@@ -371,19 +378,30 @@ func (c *Conn) setDL(kind string, t time.Time) error {
 	}
 	c.log.Add(EvSetDeadline, c.ID, 0, nil, info)
 	c.mu.Lock()
-	c.deadline = t
-	c.hasDL = !t.IsZero() && time.Until(t) > 0
-	c.dlCalls++
+	if kind != "w" {
+		c.deadline = t
+		c.hasDL = !t.IsZero() && time.Until(t) > 0
+		c.dlCalls++
+	}
+	if kind != "r" {
+		c.hasWDL = !t.IsZero()
+	}
 	c.cond.Broadcast()
 	c.mu.Unlock()
 	return nil
 }
 
-func (c *Conn) SetDeadline(t time.Time) error     { return c.setDL("rw", t) }
-func (c *Conn) SetReadDeadline(t time.Time) error { return c.setDL("r", t) }
-func (c *Conn) SetWriteDeadline(t time.Time) error {
-	c.log.Add(EvNote, c.ID, 0, nil, "set-write-deadline")
-	return nil
+func (c *Conn) SetDeadline(t time.Time) error      { return c.setDL("rw", t) }
+func (c *Conn) SetReadDeadline(t time.Time) error  { return c.setDL("r", t) }
+func (c *Conn) SetWriteDeadline(t time.Time) error { return c.setDL("w", t) }
+
+// LateWrites tells the connection that the harness' clock has moved on: from now on a Write finds any
+// armed write deadline expired (a handler that took long, a request that arrived late in the read
+// window).  A connection on which no write deadline is armed is not affected.
+func (c *Conn) LateWrites(on bool) {
+	c.mu.Lock()
+	c.lateW = on
+	c.mu.Unlock()
 }
 
 // ---- listener ----
